@@ -657,6 +657,9 @@ static int needed_depth(const vf_doc *d)
 
 static op_t OPS[160];
 static int NOPS;
+static op_t OPS_LOOKUP[64];        /* C06: the six navigation operations, reset, verify and field_with_length over every query name */
+static int NOPS_LOOKUP;
+static const op_t *CUR_OPS; static int CUR_NOPS;
 static int nesting_of(const vf_doc *d)
 {
     int best = 0;
@@ -683,14 +686,14 @@ static void handle_doc(vf_doc *d)
     int need = needed_depth(D);
     if (need + 1 > VF_MAXDEPTH_SNAP) vf_die("document too deep for the snapshot type");
     MD = need;
-    explore_config(OPS, NOPS);
+    explore_config(CUR_OPS ? CUR_OPS : OPS, CUR_OPS ? CUR_NOPS : NOPS);
     MD = need + 1;
-    explore_config(OPS, NOPS);
+    explore_config(CUR_OPS ? CUR_OPS : OPS, CUR_OPS ? CUR_NOPS : NOPS);
 }
 static int g_w, g_W;
 static uint64_t g_start;
 
-static int N_TOK, N_TOK_DEEP, N_BIG;
+static int N_TOK, N_TOK_DEEP, N_BIG, N_LOOKUP;
 static uint64_t g_docindex;
 static bool take_doc(void)
 {
@@ -786,6 +789,20 @@ static void worker(int w, int W, uint64_t start)
             vf_gen_run(&g);
         }
     }
+    /* C06: navigation DRIVEN BY LOOKUPS ("enter only a container that next or a field lookup has just returned"): the trap-name
+     * and boundary-name families with field_with_length over all query names mixed into the navigation operations */
+    if (P_C06) {
+        CUR_OPS = OPS_LOOKUP; CUR_NOPS = NOPS_LOOKUP;
+        for (int fam = 0; fam < 2; fam++)
+            for (int root = VK_OBJ; root <= VK_ARR; root++) {
+                memset(&g, 0, sizeof g);
+                g.root_kind = root; g.classes = cls_c07; g.nclasses = 3; g.cb = on_doc;
+                if (fam == 0) { g.names = names_trap; g.nnames = NTRAP; g.max_obj_depth = 3; g.max_tokens = N_LOOKUP; }
+                else { g.names = names_huge; g.nnames = NHUGE; g.max_obj_depth = 2; g.max_tokens = N_LOOKUP - 1; }
+                vf_gen_run(&g);
+            }
+        CUR_OPS = NULL;
+    }
 }
 
 static void replay_main(void)
@@ -847,19 +864,23 @@ int main(int argc, char **argv)
     for (int i = 0; i < 6; i++) OPS[NOPS++] = (op_t) base6[i];
     if (P_C11) OPS[NOPS++] = 'w';
     if (P_C06) { OPS[NOPS++] = 'R'; OPS[NOPS++] = 'V'; }
+    if (P_C06) { for (int i = 0; i < NOPS; i++) OPS_LOOKUP[NOPS_LOOKUP++] = OPS[i]; for (int q = 0; q < NQ; q++) OPS_LOOKUP[NOPS_LOOKUP++] = (op_t) (0x80 | q); }
     if (P_C07) for (int v = 0; v < 4; v++) for (int q = 0; q < NQ; q++) OPS[NOPS++] = (op_t) (0x80 | (v << 5) | q);
     const char *e = getenv("VERIF_N");
     if (P_C07) N_TOK = vf_g.thorough ? 4 : 3; else N_TOK = vf_g.thorough ? 6 : 5;
     if (e) N_TOK = atoi(e);
     N_TOK_DEEP = (!P_C07 && vf_g.thorough && !e) ? 7 : 0;
     N_BIG = vf_g.thorough ? 3 : 2;
+    N_LOOKUP = vf_g.thorough ? 4 : 3;
     if (vf_g.replay) replay_main();
     int deaths = vf_run_workers(worker);
-    static char bound[400], rule[600];
+    static char bound[1500], rule[600];
     snprintf(bound, sizeof bound,
              "all valid object- and array-rooted documents with <= %d value tokens over leaves {%s} and containers {object,array}%s, names %s; "
-             "max_depth = needed and needed+1; per document: fixpoint over ALL protocol-following call sequences (any length) of %d operations",
-             N_TOK, P_C07 ? "int" : "int,string,128-byte string", N_TOK_DEEP ? " and with <= 7 value tokens over {int,string,object,array}" : "", P_C07 ? "12 order-trap names (empty, NUL, prefixes, a pair differing only after an embedded NUL, a 128-byte name, 0x7f/0x80/0xff); plus all documents with one token less over 10 names whose lengths sit on the prefix-width and counter-width boundaries (1, 127, 257 x2, 32767, 32768, 65537 x2); 22 query names" : "a<b<c", NOPS);
+             "%smax_depth = needed and needed+1; per document: fixpoint over ALL protocol-following call sequences (any length) of %d operations",
+             N_TOK, P_C07 ? "int" : "int,string,128-byte string", N_TOK_DEEP ? " and with <= 7 value tokens over {int,string,object,array}" : "", P_C07 ? "12 order-trap names (empty, NUL, prefixes, a pair differing only after an embedded NUL, a 128-byte name, 0x7f/0x80/0xff); plus all documents with one token less over 10 names whose lengths sit on the prefix-width and counter-width boundaries (1, 127, 257 x2, 32767, 32768, 65537 x2); 22 query names" : "a<b<c",
+             P_C07 ? "" : "array towers of 2..255 levels, object towers of 10 and 14 levels, documents over {int, 32768-byte string / bytes, containers}, containers beyond offset 65536; "
+                          "lookup-driven navigation (C06) on the trap-name and boundary-name families with field_with_length over 22 names; ", NOPS);
     snprintf(rule, sizeof rule,
              "grammar-directed exhaustive enumeration of documents; breadth-first search over (byte image of parser+state[], reference cursor state), "
              "deduplicated by exact comparison; each transition is one real API call checked against the reference cursor");
